@@ -25,6 +25,9 @@ CLAIMED = {
  "C17": ("§7 C17", "The full matrix of 86 Ion values x 38 Go target types x 4 unmarshal entry points, judged by the documented mapping table (must succeed and image back / must return an error / not judged), hand-written struct-target cells, and Decoder streams of 0..3 values followed by two extra calls (ErrNoInput); a panic anywhere is a violation.",
          "The godoc mapping table is the specification; conversions it does not mention are exercised for panics only.",
          "explicit enumeration of the value x target x API matrix on the implementation vs a table-driven reference"),
+ "C19": ("§7 C19", "Environment answers as explorer choices: every Read of an instrumented io.Reader (all chunkings of short documents, all chunkings with <=d split points of long ones, byte-at-a-time, data together with EOF) and a persistent read failure after every byte offset; every Write of an instrumented io.Writer failing at every write-call index in two failure shapes, for three writer modes; results compared with the whole-buffer run and with the error-propagation clauses of the property.",
+         "bufio sits between the instrumented reader and ion-go as in NewReader; more than d split points on long documents are not covered.",
+         "exhaustive enumeration of environment answers (chunk boundaries, fault points) under a deviation bound, on the implementation"),
  "C05": ("§7 C05", "Source documents produced by the reference printer/encoder (the whole value generator, plus every history of <=4 symbol-table events under five catalogs) in text and binary are copied by the documented copy loop into text, pretty and binary Writers; the independent decoder must read back the values the reference context machine assigns to the source, symbols compared by text.",
          "Trusts refsym/refbin/reftext; longer histories are not covered; symbols whose text the source does not know are judged on histories of <=3 events (known findings).",
          "explicit enumeration of source histories x destinations, replayed through the real Reader and Writer, judged by an independent decoder"),
